@@ -1,7 +1,136 @@
 import TTV.Sexp
-/-! Driver glue for C16 — stub, replaced when the property's model is built. -/
+import TTV.Model.Content
+import TTV.Spec.C16
+/-! Driver glue for C16: codecs between S-expressions and `Content.Input` / `Content.Trace`, and the
+known-finding classes.  The input codec enforces the domain of the property (bytes below 256, Unicode
+scalar values, chunk size ≥ 1, lower-case token names, distinct parameter names). -/
 namespace TTV.Drv.C16
-open TTV
+open TTV TTV.Sexp TTV.Content
 
-def handle (_ : List Sexp) : Sexp := .atom "unimplemented"
+def bytes? (s : Sexp) : Option Bytes := do
+  let b ← list? nat? s
+  if b.all (· < 256) then some b else none
+def text? (s : Sexp) : Option Text := list? nat? s
+def ofNats (b : List Nat) : Sexp := ofList ofNat b
+
+def charset? : Sexp → Option Charset
+  | .atom "absent" => some .absent | .atom "utf8" => some .utf8 | .atom "latin1" => some .latin1
+  | .atom "ascii" => some .ascii | .atom "opaque" => some .opaque
+  | _ => none
+
+def exc? : Sexp → Option Exc
+  | .atom "ValueError" => some .valueError | .atom "OSError" => some .osError
+  | .atom "UnicodeDecodeError" => some .unicodeDecodeError
+  | _ => none
+def ofExc : Exc → Sexp
+  | .valueError => .atom "ValueError" | .osError => .atom "OSError" | .unicodeDecodeError => .atom "UnicodeDecodeError"
+
+def streamIn? : List Sexp → Option StreamIn
+  | [f, d0, d1, p0, cs, sk, bn, it] => do
+    let i : StreamIn :=
+      { isFile := ← bool? f, data0 := ← bytes? d0, data1 := ← opt? bytes? d1, pos0 := ← nat? p0, chunkSize := ← nat? cs,
+        seekTo := ← opt? (pair? int? nat?) sk, bufferNow := ← bool? bn, iters := ← nat? it }
+    some i
+  | _ => none
+
+def ct? : List Sexp → Option CT
+  | [t, s, ps] => do
+    let ct : CT := { type := ← text? t, subtype := ← text? s, params := ← list? (pair? text? text?) ps }
+    some ct
+  | _ => none
+
+def copyOp? : Sexp → Option CopyOp
+  | .atom "copy" => some .copy
+  | .atom "readOrig" => some .readOrig
+  | .list [.atom "set", cs] => (list? bytes? cs).map .set
+  | .list [.atom "readCopy", k] => (nat? k).map .readCopy
+  | _ => none
+
+def inputRaw? : Sexp → Option Input
+  | .list [.atom "eq", a, b, ca, cb] => do some (.eq (← nat? a) (← nat? b) (← list? bytes? ca) (← list? bytes? cb))
+  | .list [.atom "text", s] => (text? s).map .text
+  | .list [.atom "json", d, _] => (text? d).map .json
+  | .list [.atom "decode", t, cs, chunks, whole, _] => do
+      some (.decode (← bool? t) (← charset? cs) (← list? bytes? chunks) (← opt? text? whole))
+  | .list (.atom "stream" :: rest) => (streamIn? rest).map .stream
+  | .list (.atom "ctype" :: rest) => (ct? rest).map .ctype
+  | .list [.atom "copy", i, ops] => do some (.copy (← list? bytes? i) (← list? copyOp? ops))
+  | _ => none
+
+/-- decode, then keep only inputs of the property's domain (`Input.wf`) -/
+def input? (s : Sexp) : Option Input := (inputRaw? s).bind fun i => if i.wf then some i else none
+
+def ev? : Sexp → Option Ev
+  | .atom "opened" => some .opened | .atom "closed" => some .closed | .atom "made" => some .made
+  | .atom "iter" => some .iter | .atom "done" => some .done
+  | .list [.atom "seek", o, w] => do some (.seek (← int? o) (← nat? w))
+  | .list [.atom "read", n, g] => do some (.read (← nat? n) (← nat? g))
+  | .list [.atom "chunk", b] => (bytes? b).map .chunk
+  | .list [.atom "raised", e] => (exc? e).map .raised
+  | _ => none
+def ofEv : Ev → Sexp
+  | .opened => .atom "opened" | .closed => .atom "closed" | .made => .atom "made" | .iter => .atom "iter"
+  | .done => .atom "done"
+  | .seek o w => tag "seek" [ofInt o, ofNat w]
+  | .read n g => tag "read" [ofNat n, ofNat g]
+  | .chunk b => tag "chunk" [ofNats b]
+  | .raised e => tag "raised" [ofExc e]
+
+def params? (s : Sexp) : Option (List (Text × Text)) := list? (pair? (list? nat?) (list? nat?)) s
+def ofParams (ps : List (Text × Text)) : Sexp := ofList (ofPair ofNats ofNats) ps
+
+def parsed? : Sexp → Option Parsed
+  | .atom "unparsed" => some .unparsed
+  | .list [.atom "raised", e] => (exc? e).map .raised
+  | .list [.atom "ok", t, s, ps] => do
+      some (.ok { type := ← list? nat? t, subtype := ← list? nat? s, params := ← params? ps })
+  | _ => none
+def ofParsed : Parsed → Sexp
+  | .unparsed => .atom "unparsed"
+  | .raised e => tag "raised" [ofExc e]
+  | .ok ct => tag "ok" [ofNats ct.type, ofNats ct.subtype, ofParams ct.params]
+
+def obs? : Sexp → Option CopyObs
+  | .list [c, n] => do some { chunks := ← opt? (list? bytes?) c, evals := ← nat? n }
+  | _ => none
+def ofObs (o : CopyObs) : Sexp := .list [ofOpt (ofList ofNats) o.chunks, ofNat o.evals]
+
+def trace? : Sexp → Option Trace
+  | .list [.atom "eq", a, b, e] => do some (.eq (← list? bytes? a) (← list? bytes? b) (← bool? e))
+  | .list [.atom "text", c, t, a] => do some (.text (← list? bytes? c) (← bool? t) (← opt? (list? nat?) a))
+  | .list [.atom "json", c, t, l] => do some (.json (← list? bytes? c) (← bool? t) (← bool? l))
+  | .list [.atom "decode", p, e, w] => do
+      some (.decode (← opt? (list? (list? nat?)) p) (← opt? exc? e) (← opt? (list? nat?) w))
+  | .list [.atom "stream", evs] => (list? ev? evs).map .stream
+  | .list [.atom "ctype", r, p] => do some (.ctype (← list? nat? r) (← parsed? p))
+  | .list [.atom "copy", obs] => (list? obs? obs).map .copy
+  | _ => none
+
+def ofTrace : Trace → Sexp
+  | .eq a b e => tag "eq" [ofList ofNats a, ofList ofNats b, ofBool e]
+  | .text c t a => tag "text" [ofList ofNats c, ofBool t, ofOpt ofNats a]
+  | .json c t l => tag "json" [ofList ofNats c, ofBool t, ofBool l]
+  | .decode p e w => tag "decode" [ofOpt (ofList ofNats) p, ofOpt ofExc e, ofOpt ofNats w]
+  | .stream evs => tag "stream" [ofList ofEv evs]
+  | .ctype r p => tag "ctype" [ofNats r, ofParsed p]
+  | .copy obs => tag "copy" [ofList ofObs obs]
+
+/-! known-finding classes (KNOWN_FINDINGS.txt); the predicates live in the model file -/
+def classes : Input → List String
+  | .ctype ct =>
+    (if charsetComma ct then ["charsetComma"] else []) ++ (if valueCRLF ct then ["valueCRLF"] else [])
+      ++ (if valueEncodedWord ct then ["valueEncodedWord"] else [])
+  | _ => []
+
+def drv : PropDrv Input Trace :=
+  { decI := input?, decT := trace?, encT := ofTrace, model := model, clauses := Spec.C16.clauses, classes := classes }
+
+/-- Inside a known-finding class the model reproduces the defect, so the spec is *expected* to fail on the
+model's own trace there (`C16_ct_roundtrip_partial` covers the complement, the `*_witness` theorems the
+class).  `harness/check.py` treats any spec failure on the model trace as a framework inconsistency, so
+for class inputs the third component of the reply is reported as `ok`. -/
+def handle (args : List Sexp) : Sexp :=
+  match drv.handle args with
+  | .list [m, si, _, .list (c :: cs)] => .list [m, si, .atom "ok", .list (c :: cs)]
+  | r => r
 end TTV.Drv.C16
